@@ -17,7 +17,7 @@ void hbw_done(CO_CSDO *cs, uint16_t i, uint8_t sub, uint32_t code) {
 }
 
 void case_impl(Ctx &c, bool tight) {
-  Sim s(c); World w(s); const bool cbw = c.param == 1; g_hbw = HbWrite();
+  Sim s(c); World w(s); const bool cbw = c.param == 1, lssact = c.param == 2; g_hbw = HbWrite();
   s.nodeid = (uint8_t)(1 + c.t.below(127));
   // mode tight-pool: a timer pool that the concurrent users can fill completely (2..7 slots; SYNC producer + heartbeat need 2 at start-up)
   if (tight) s.ntmr = (uint16_t)(2 + c.t.below(6));
@@ -44,7 +44,7 @@ void case_impl(Ctx &c, bool tight) {
   VLOG(c, "node %u, %u Hz, heartbeat period %u ticks (%u ms)", s.nodeid, s.freq, P, ms_of_ticks(P));
   long due = P ? (long)P : -1;     // armed at initialisation (tick 0)
   int mode = 2;                    // 2 PREOP, 3 OP, 4 STOP
-  int hb_seen = 0; bool interfered = false; int hb_after_interference = 0; int cbwrites = 0, cbwrites_in_reset = 0;
+  int hb_seen = 0; bool interfered = false; int hb_after_interference = 0; int cbwrites = 0, cbwrites_in_reset = 0, lssacts = 0;
   // the write made by the completion callback takes effect at the moment the callback runs
   auto callback_write = [&](const char *where) -> bool {
     if (!g_hbw.fired) return false;
@@ -82,8 +82,8 @@ void case_impl(Ctx &c, bool tight) {
   int steps = 0;
   while (!c.t.exhausted() && steps < 300) {
     steps++; c.ops++;
-    static const uint16_t W[15] = {60, 14, 10, 10, 6, 6, 6, 6, 6, 8, 4, 4, 4, 6, 5}, WC[17] = {60, 14, 8, 8, 3, 3, 3, 3, 3, 4, 4, 2, 2, 4, 10, 16, 8};
-    uint32_t op = cbw ? c.t.weighted(WC) : c.t.weighted(W);
+    static const uint16_t W[15] = {60, 14, 10, 10, 6, 6, 6, 6, 6, 8, 4, 4, 4, 6, 5}, WC[17] = {60, 14, 8, 8, 3, 3, 3, 3, 3, 4, 4, 2, 2, 4, 10, 16, 8}, WL[18] = {60, 14, 10, 10, 4, 4, 4, 4, 4, 6, 4, 4, 4, 6, 5, 0, 0, 14};
+    uint32_t op = lssact ? c.t.weighted(WL) : cbw ? c.t.weighted(WC) : c.t.weighted(W);
     s.clear_tx();
     switch (op) {
       case 0: one_tick(); break;
@@ -143,6 +143,26 @@ void case_impl(Ctx &c, bool tight) {
         for (int k = 0; k < 4; k++) (void)k;   // application timers keep running
         break;
       }
+      case 17: {  // mode with-lss-activation: LSS activate bit timing with a switch delay of d ms: the node leaves the bus for two delay periods (NMT state
+        // INITIALISATION, CAN controller closed) and is back in PRE-OPERATIONAL afterwards - the heartbeat then goes on "exactly every configured period":
+        // on the grid it had, nothing shifted, duplicated or suppressed once the node is back (inside the window nothing can be sent)
+        uint32_t dms = (1 + c.t.below(6)) * (s.freq == 100 ? 10 : 1); uint32_t dt = dms * s.freq / 1000;
+        s.clear_tx(); s.rx(Frame::mk(0x7E5, 8, {4, 1, 0, 0, 0, 0, 0, 0})); s.rx(Frame::mk(0x7E5, 8, {21, (uint8_t)dms, (uint8_t)(dms >> 8), 0, 0, 0, 0, 0}));
+        no_hb_outside_tick("an LSS activate-bit-timing request");
+        VLOG(c, "LSS activate bit timing, switch delay %u ms (%u ticks) at tick %ld", dms, dt, s.tick);
+        long t0 = s.tick;
+        for (uint32_t i = 0; i < 2 * dt; i++) {
+          s.clear_tx(); s.clear_ev(); s.step_tick(); long T = s.tick; bool last = T == t0 + 2 * (long)dt;
+          int got = 0; for (auto &t : s.tx) if (t.id == HBID) got++;
+          bool duenow = due == T; if (duenow) due = T + P;
+          if (!last) CHECK(c, got == 0, "hb-only-when-due", "tick %ld: %d heartbeat frame(s) while the node is off the bus for the LSS switch delay (ticks %ld..%ld)", T, got, t0 + 1, t0 + 2 * (long)dt - 1);
+          else { CHECK(c, got <= (duenow ? 1 : 0), duenow ? "hb-duplicated" : "hb-only-when-due", "tick %ld (end of the LSS switch delay): %d heartbeat frame(s), %s", T, got, duenow ? "at most the one that is due" : "none is due");
+                 for (auto &t : s.tx) if (t.id == HBID) CHECK(c, t.dlc == 1 && (t.d[0] == 127 || t.d[0] == 0), "hb-content", "heartbeat at the end of the LSS switch delay is %s", t.str().c_str()); }
+          for (auto &e : s.ev) if (e.k == EV_APPTMR) { int k = (int)e.a; if (k >= 0 && k < 4 && !appcyclic[k]) apptm[k] = -1; }
+        }
+        mode = 2; interfered = true; lssacts++; s.clear_tx();
+        break;
+      }
       case 15: {  // the application starts an SDO client transfer whose completion callback will rewrite 1017h
         if (mode == 4) break;
         s.api_begin(); CO_CSDO *cs = COCSdoFind(s.node, 0); s.api_end("COCSdoFind"); if (!cs || g_hbw.armed) break;
@@ -163,6 +183,7 @@ void case_impl(Ctx &c, bool tight) {
   if (hb_seen >= 3 && hb_after_interference >= 1) c.nontrivial = true;
   c.cls(P ? "hb-on-at-end" : "hb-off-at-end");
   if (hb_seen >= 3) c.cls("three-or-more-heartbeats");
+  if (lssacts) c.cls("lss-bit-timing-activated");
   if (cbwrites) c.cls("1017h-written-from-the-client-completion-callback"); if (cbwrites_in_reset) c.cls("1017h-written-from-the-callback-inside-an-nmt-reset");
   char f[32]; snprintf(f, sizeof f, "freq-%u", s.freq); c.cls(f);
 }
@@ -172,13 +193,14 @@ void tight_case(Ctx &c) { case_impl(c, true); }
 
 Registrar reg(Prop{
     "C10",
-    "Cases: node id 1..127, timer frequency in {100, 1000, 10000} Hz, initial 1017h 0 or a whole number of ticks (1..200 ticks), concurrent timer users (SYNC producer on/off, an event-driven TPDO with inhibit/event time, a heartbeat consumer, up to 4 application timers); mode tight-pool: the same with a timer pool of 2..7 slots which these users can fill completely - a running producer re-uses its slot, so rewriting 1017h must succeed with a full pool; only switching the producer on with a full pool may be refused; mode write-from-client-callback: the node has an SDO client and the application rewrites 1017h through the dictionary API from inside the completion callback of a client transfer, which runs inside a timer step (timeout), inside the handling of a received answer, or inside an NMT reset that gives the transfer up; "
+    "Cases: node id 1..127, timer frequency in {100, 1000, 10000} Hz, initial 1017h 0 or a whole number of ticks (1..200 ticks), concurrent timer users (SYNC producer on/off, an event-driven TPDO with inhibit/event time, a heartbeat consumer, up to 4 application timers); mode tight-pool: the same with a timer pool of 2..7 slots which these users can fill completely - a running producer re-uses its slot, so rewriting 1017h must succeed with a full pool; only switching the producer on with a full pool may be refused; mode write-from-client-callback: the node has an SDO client and the application rewrites 1017h through the dictionary API from inside the completion callback of a client transfer, which runs inside a timer step (timeout), inside the handling of a received answer, or inside an NMT reset that gives the transfer up; mode with-lss-activation: LSS activate-bit-timing takes the node off the bus for two switch delay periods (no heartbeat then) - afterwards the heartbeat continues on its grid; "
     "histories of up to 300 ops: single ticks, jumps to the next expected heartbeat, SDO/API writes to 1017h (0 or valid), NMT start/stop/pre-operational commands, SDO writes to TPDO event/inhibit time and COB-ID, to 1005h/1006h, TPDO triggers, asynchronous object writes, SYNC and heartbeat frames, application timers created and deleted (only while owned). "
     "Oracle: per tick the number of frames on 700h+id equals the reference schedule t_arm + k*P (t_arm = initialisation or the last accepted write), content = one byte with the NMT state at emission; no heartbeat frame outside a timer step. "
     "Non-trivial: >= 3 heartbeats observed and >= 1 of them after an interfering operation. Distinct = distinct decoded choice sequence.",
     {Mode{"random", one_case, false, 800000, 13000000, 0, 0, 300, 500},
      Mode{"tight-pool", tight_case, false, 500000, 8000000, 0, 0, 300, 500},
-     Mode{"write-from-client-callback", one_case, false, 300000, 5000000, 1, 1, 300, 500}},
+     Mode{"write-from-client-callback", one_case, false, 300000, 5000000, 1, 1, 300, 500},
+     Mode{"with-lss-activation", one_case, false, 200000, 3000000, 2, 2, 300, 500}},
     {"heartbeat times below one tick are outside the domain (timer creation legitimately fails)", "all generated times are whole numbers of ticks", "an application timer id is deleted only while the application owns it (cyclic, or one-shot not yet fired)"}});
 
 }  // namespace
